@@ -135,6 +135,10 @@ func (g *G) arg(spec string, op string) string {
 			return sU64(uint64(g.pick(24)))
 		}
 		return sU64(g.u64())
+	case "F64":
+		return sU64(g.f64bits())
+	case "F32":
+		return sU64(uint64(g.f32bits()))
 	case "U128":
 		return g.wordsN(2)
 	case "U192":
@@ -337,6 +341,9 @@ func kernelMode(g *G, n int, filter string) {
 			drm := uint8(0)
 			if g.chance(0.5) {
 				drm = g.mode()
+			}
+			if (op == "Decimal.Float64" || op == "Decimal.Float32") && g.chance(0.7) {
+				args[0] = g.floatishDecimal().String() // in and around the binary ranges, half-way points
 			}
 			fixup(op, sig, args)
 			emit(drm, op, args)
